@@ -13,9 +13,69 @@ def main(tier, seed, replay=None):
 
         chan_model.correspondence(ck, ok, "C10", tier, replay)
         chan_model.multichannel_queue(ck, tier, replay)
+        loss_during_replay(ck, tier, replay)
     except ImportError:
         pass
     return ck.finish(rule='programs whose initiator side installs a callback with endmarker before, between and after the arrival of the items and of the close (early and late setcallback), ending by normal end of the remote_exec or by a remote error; random/PCT schedules with line-level preemption.')
+
+
+def loss_during_replay(ck, tier, replay=None):
+    """the connection is lost while setcallback hands over already queued items (late setcallback) or while the callback works off
+    arriving ones: whatever the cut point and the schedule, the callback sees a prefix of the items in order and then the endmarker,
+    exactly once and last"""
+    import random
+
+    from evh import sched as S
+
+    if replay and not (replay.get("signature") or "").startswith("callback-endmarker-not-last-under-loss"):
+        return
+    rng = random.Random(ck.seed * 7 + 3)
+    jobs = []
+    if replay:
+        e = replay["example"]
+        jobs.append((e["prog"], e["seed"], e["cut"], e["schedule"], e.get("line_budget", 0)))
+    else:
+        for mode in ("callback_late", "callback_mid", "callback"):
+            prog = [{"kind": "produce", "tag": "t0", "items": list(range(5)), "consume": mode}]
+            base = CC.run_program(prog, S.RandomChooser(random.Random(1)), 1)
+            total = base["w2i_total"]
+            for k in sorted(set(range(max(0, total - 40), total, 2)) | {rng.randrange(total) for _ in range(6)}):
+                for _ in range(2 if tier == "quick" else 12):
+                    jobs.append((prog, rng.getrandbits(30), k, None, rng.choice([0, 8, 16])))
+    if not replay and ck.broken and not ck.failures:
+        # an obligation broke and nothing failed yet: one targeted preemption at every line of the changed functions, with the stream
+        # cut inside the items that arrive while the callback is being installed
+        from evh.common import changed_lines
+
+        prog = [{"kind": "produce", "tag": "t0", "items": list(range(5)), "consume": "callback_mid"}]
+        base = CC.run_program(prog, S.RandomChooser(random.Random(1)), 1)
+        total = base["w2i_total"]
+        for where in changed_lines(ck.build_info):
+            # cuts inside the FIRST frame that follows the queued items: a complete frame would make the receiver thread wait for the
+            # receive lock (held during the hand-over) instead of reaching the end of the stream
+            for k in range(max(0, total - 56), max(1, total - 30), 4):
+                for nth in (1, 2):
+                    jobs.append((prog, rng.getrandbits(30), k, ("demote", where, nth), 10 ** 6))
+        ck.count("loss_during_replay_targeted", len(jobs))
+    for prog, sd, k, schedule, lb in jobs:
+        if ck.failures and isinstance(schedule, tuple):
+            break
+        if isinstance(schedule, tuple) and schedule[0] == "demote":
+            chooser = S.DemoteAtLine(schedule[1], schedule[2], random.Random(sd))
+        else:
+            chooser = S.ReplayChooser(schedule) if schedule is not None else S.RandomChooser(random.Random(sd), line_p=0.3)
+        out = CC.run_program(prog, chooser, sd, cut_w2i=k, cut_both=bool(sd % 2), line_budget=lb)
+        ck.case(("loss-during-replay", prog[0]["consume"], k, tuple(out["schedule"][:60])), nontrivial=True)
+        ck.count("loss_during_replay_runs")
+        o = out["obs"].get(0) or {}
+        got = list(o.get("got") or [])
+        END = ("END",)
+        items = [x for x in got if x != END and x != list(END)]
+        ends = [i for i, x in enumerate(got) if x == END or x == list(END)]
+        if out["result"] != "stop" or "id" not in o:
+            continue
+        if items != list(range(len(items))) or len(ends) != 1 or ends[0] != len(got) - 1:
+            ck.fail("callback-endmarker-not-last-under-loss:" + prog[0]["consume"], {"prog": prog, "seed": sd, "cut": k, "schedule": out["schedule"], "line_budget": lb, "callback_calls": [str(x) for x in got]})
 
 
 EXTRA = None
